@@ -15,26 +15,37 @@
 #include <array>
 #include "utils/tbfperiodicshifter.hpp"
 
+// counter vectors: NSLOT counters of SLOTBITS bits (64 x 16 by default; 16 x 64 for the periodic runs,
+// whose image counts exceed 16 bits)
+#ifndef SLOTBITS
+#define SLOTBITS 16
+#endif
+#if SLOTBITS == 16
 constexpr int NSLOT = 64;
+using slot_t = uint16_t;
+#else
+constexpr int NSLOT = 16;
+using slot_t = uint64_t;
+#endif
 
 struct Cnt {
     long level;            // identity tag written by the harness after the build (never by the kernel)
     long idx;
-    uint16_t cnt[NSLOT];
+    slot_t cnt[NSLOT];
 };
 
-inline std::string hexOfCnt(const uint16_t* c){
-    // big number sum_k c[k] * 2^(16k) in lower-case hex without leading zeros
+inline std::string hexOfCnt(const slot_t* c){
+    // big number sum_k c[k] * 2^(SLOTBITS*k) in lower-case hex without leading zeros
     std::string s;
     bool started = false;
-    char buf[8];
+    char buf[24];
     for(int k = NSLOT-1 ; k >= 0 ; --k){
         if(!started){
             if(c[k] == 0) continue;
-            snprintf(buf, sizeof(buf), "%x", (unsigned)c[k]);
+            snprintf(buf, sizeof(buf), "%llx", (unsigned long long)c[k]);
             started = true;
         }
-        else snprintf(buf, sizeof(buf), "%04x", (unsigned)c[k]);
+        else snprintf(buf, sizeof(buf), SLOTBITS == 16 ? "%04llx" : "%016llx", (unsigned long long)c[k]);
         s += buf;
     }
     if(!started) s = "0";
@@ -45,8 +56,11 @@ struct RecLog {
     static std::vector<std::string>& lines(){ static std::vector<std::string> l; return l; }
     static std::vector<std::string>& errors(){ static std::vector<std::string> l; return l; }
     static bool& enabled(){ static bool e = true; return e; }
-    static void add(const std::string& s){ if(enabled()) lines().push_back(s); }
-    static void err(const std::string& s){ errors().push_back(s); }
+    // calls made by the periodic top tree operate on virtual cells above the root: they are logged as "CT ..."
+    // and the identity tags of their arguments are not meaningful
+    static bool& topTree(){ static bool t = false; return t; }
+    static void add(const std::string& s){ if(enabled()) lines().push_back(topTree() ? ("CT" + s.substr(1)) : s); }
+    static void err(const std::string& s){ if(!topTree() || s.find("tag") == std::string::npos) errors().push_back(s); }
 };
 
 // geometry the kernel uses to check leaf containment of the particles it is handed
